@@ -161,6 +161,8 @@ type Engine struct {
 	tableInit     *ssa.Function
 	skipInit      map[*ssa.Function]func()
 	dirs          map[string][]Value
+	files         map[string][]Value // modelled regular files (osfile.go)
+	gomaxprocs    *term.T
 	trace         []string
 	curFn         *ssa.Function
 	curInstr      ssa.Instruction
